@@ -143,6 +143,26 @@ def main(argv=None):
     try:
         dumps, failures = run_workers(prop, sorted(groups.items()), a.workers, timeout, workdir,
                                       budget=timeout * 0.9)
+        ambient_note = None
+        if tier == "thorough" and getattr(mod, "AMBIENT", False) and not a.replay and not a.only:
+            # ambient workload: the repository's own unedited test-suite under this property's general monitors
+            adir = os.path.join(workdir, "ambient")
+            os.makedirs(adir, exist_ok=True)
+            envp = dict(os.environ, RV_AMBIENT=prop, RV_AMBIENT_OUT=adir, PYTHONPATH=VERIF + ":" + env.REPO, JAX_PLATFORMS="cpu", PYTHONHASHSEED="0")
+            try:
+                r = subprocess.run([sys.executable, "-m", "pytest", "-q", "-p", "no:cacheprovider", "-p", "rv.ambient", "--timeout=900", "-n", str(min(a.workers, 12)), "tests"],
+                                   cwd=env.REPO, env=envp, capture_output=True, text=True, timeout=2400)
+                tail = [l for l in r.stdout.splitlines() if " passed" in l or " failed" in l or "error" in l.lower()][-1:]
+                ambient_note = "; ".join(tail)
+            except subprocess.TimeoutExpired:
+                failures.append(dict(shard="ambient", reason="ambient pytest run timed out", cases=0))
+            got = 0
+            for f in sorted(os.listdir(adir)):
+                if f.endswith(".json"):
+                    dumps.append(json.load(open(os.path.join(adir, f))))
+                    got += 1
+            if not got:
+                failures.append(dict(shard="ambient", reason="ambient run produced no monitor output", cases=0))
     finally:
         shutil.rmtree(workdir, ignore_errors=True)
     agg = aggregate(dumps)
@@ -177,6 +197,11 @@ def main(argv=None):
             got = agg["mon"].get(mname, {}).get("judged", 0)
             if got < need:
                 inconclusive.append(f"monitor {mname} judged {got} < {need} events")
+        if tier == "thorough" and getattr(mod, "AMBIENT", False):
+            for mname, need in getattr(mod, "REQUIRED_AMBIENT", {}).items():
+                got = agg["mon"].get(mname, {}).get("judged", 0)
+                if got < need:
+                    inconclusive.append(f"ambient monitor {mname} judged {got} < {need} events")
         for tname, need in getattr(mod, "REQUIRED_TAPS", {}).items():
             if agg["taps"].get(tname, 0) < need:
                 inconclusive.append(f"tap {tname} evaluated {agg['taps'].get(tname, 0)} < {need} times")
@@ -187,6 +212,8 @@ def main(argv=None):
         print(f"   {k:34s} judged={m['judged']:6d} viol={m['violations']:4d} outside={m['outside_precondition']:5d} "
               f"skipped={m['skipped']:4d} traced={m['traced']:5d} distinct={len(agg['sigs'].get(k, ())):5d} "
               f"worst err/tol={m['worst_ratio']:.2e}")
+    if ambient_note:
+        print("   ambient test-suite run:", ambient_note)
     if agg["taps"]:
         print("   taps:", json.dumps(agg["taps"], sort_keys=True))
     for o in agg["observations"][:8]:
@@ -241,7 +268,7 @@ def main(argv=None):
                 monitors={k: dict(m, distinct=len(agg["sigs"].get(k, ()))) for k, m in agg["mon"].items()},
                 taps=agg["taps"], observations=agg["observations"][:20],
                 known_findings_matched={k: len(v) for k, v in listed.items()},
-                verdict={0: "held", 1: "violated", 2: "inconclusive"}[rc],
+                verdict={0: "held", 1: "violated", 2: "inconclusive"}[rc], ambient_test_suite=ambient_note,
                 inconclusive_reasons=inconclusive[:10],
                 deciding_monitors=deciding),
             assumptions=list(getattr(mod, "ASSUMPTIONS", [])),
